@@ -90,7 +90,8 @@ def run(res):
                         mm = re.match(r"""^(?:'(?:[^'\\]|\\.)*'|"(?:[^"\\]|\\.)*")\s*\}\}(?:(?!\{\{).)*$""", text, flags=re.S)
                         good = mm is not None
                 else:
-                    good = True
+                    # a static piece of mixed text: it is read from text, never from the braces of a binding
+                    good = not text.startswith("{{")
             elif c == "expr-span":
                 # a compound expression: its sub-expressions and its own tokens lie inside its location
                 for ch in l.get("children", []):
